@@ -70,15 +70,28 @@ const (
 	slotBOM       = -4
 )
 
-type variant struct{ name, text string }
+// variant: one alternative text of a slot. nl marks a variant that does not
+// itself contain a line end but sits directly next to one (trailing blanks,
+// blanks around a heredoc closing marker), so that it is also tried in a CRLF
+// file.
+type variant struct {
+	name, text string
+	nl         bool
+}
+
+func mk(name, text string) variant   { return variant{name: name, text: text} }
+func mkNL(name, text string) variant { return variant{name: name, text: text, nl: true} }
 
 type renderer struct {
-	sb     strings.Builder
-	unit   string
-	active map[int]string
-	next   int
-	rec    *[]Dev
-	al     *Alphabet
+	sb   strings.Builder
+	unit string
+	// flushTab: some `<<-` heredoc body line starts with blanks that include a
+	// horizontal tab (the flush rule of the specification speaks of spaces)
+	flushTab bool
+	active   map[int]string
+	next     int
+	rec      *[]Dev
+	al       *Alphabet
 }
 
 // slot visits one slot: vars is only called when the variants are needed
@@ -88,7 +101,7 @@ func (r *renderer) slot(kind, def string, vars func() []variant, last bool) {
 	r.next++
 	if r.rec != nil {
 		for _, v := range vars() {
-			nl := strings.Contains(v.text, "\n") || strings.Contains(v.text, "#") || strings.Contains(v.text, "//")
+			nl := v.nl || strings.Contains(v.text, "\n") || strings.Contains(v.text, "#") || strings.Contains(v.text, "//")
 			*r.rec = append(*r.rec, Dev{Slot: id, Kind: kind, Var: v.name, Last: last, NL: nl})
 		}
 	}
@@ -107,12 +120,13 @@ func (r *renderer) slot(kind, def string, vars func() []variant, last bool) {
 // own: a slot at the start of a line, holding whole lines of its own.
 func (r *renderer) own(kind, ind string, last bool) {
 	r.slot(kind, "", func() []variant {
-		vars := []variant{{"blank", "\n"}}
+		// a whitespace-only line: horizontal tabs are whitespace like spaces
+		vars := []variant{mk("blank", "\n"), mk("blank-tab", "\t\n")}
 		if r.al.Extra {
-			vars = append(vars, variant{"blank-spaces", "  \n"}, variant{"blank-two", "\n\n"})
+			vars = append(vars, mk("blank-spaces", "  \n"), mk("blank-space-tab", " \t\n"), mk("blank-two", "\n\n"))
 		}
 		for _, c := range r.al.Comments {
-			vars = append(vars, variant{c.Name, ind + c.Text + "\n"})
+			vars = append(vars, mk(c.Name, ind+c.Text+"\n"))
 		}
 		return vars
 	}, last)
@@ -126,9 +140,9 @@ func (r *renderer) lead(kind string) {
 			if c.Line {
 				continue
 			}
-			vars = append(vars, variant{c.Name, c.Text + " "})
+			vars = append(vars, mk(c.Name, c.Text+" "))
 			if r.al.Extra {
-				vars = append(vars, variant{c.Name + "-tight", c.Text})
+				vars = append(vars, mk(c.Name+"-tight", c.Text))
 			}
 		}
 		return vars
@@ -140,13 +154,15 @@ func (r *renderer) trail(kind string, last bool) {
 	r.slot(kind, "", func() []variant {
 		var vars []variant
 		for _, c := range r.al.Comments {
-			vars = append(vars, variant{c.Name, " " + c.Text})
+			vars = append(vars, mk(c.Name, " "+c.Text))
 			if r.al.Extra {
-				vars = append(vars, variant{c.Name + "-tight", c.Text})
+				vars = append(vars, mk(c.Name+"-tight", c.Text))
 			}
 		}
+		// trailing blanks directly before the line end
+		vars = append(vars, mkNL("space", " "), mkNL("tab", "\t"))
 		if r.al.Extra {
-			vars = append(vars, variant{"space", " "}, variant{"tab", "\t"})
+			vars = append(vars, mkNL("space-tab", " \t"), mkNL("tab-space", "\t "))
 		}
 		return vars
 	}, last)
@@ -159,23 +175,23 @@ func (r *renderer) gap(kind, def string, tightOK bool) {
 	r.slot(kind, def, func() []variant {
 		var vars []variant
 		if def != "" && tightOK {
-			vars = append(vars, variant{"none", ""})
+			vars = append(vars, mk("none", ""))
 		}
 		if def == "" {
-			vars = append(vars, variant{"space", " "})
+			vars = append(vars, mk("space", " "))
 		}
-		vars = append(vars, variant{"tab", "\t"})
+		vars = append(vars, mk("tab", "\t"))
 		if r.al.Extra {
-			vars = append(vars, variant{"two", "  "})
+			vars = append(vars, mk("two", "  "))
 		}
 		first := true
 		for _, c := range r.al.Comments {
 			if c.Line {
 				continue
 			}
-			vars = append(vars, variant{c.Name, " " + c.Text + " "})
+			vars = append(vars, mk(c.Name, " "+c.Text+" "))
 			if first || r.al.Extra {
-				vars = append(vars, variant{c.Name + "-tight", c.Text})
+				vars = append(vars, mk(c.Name+"-tight", c.Text))
 			}
 			first = false
 		}
@@ -193,16 +209,20 @@ func (r *renderer) value(kind string, level int) {
 		r.slot("val-trail."+kind, "", func() []variant {
 			var vars []variant
 			for _, c := range r.al.Comments {
-				vars = append(vars, variant{c.Name, " " + c.Text})
+				vars = append(vars, mk(c.Name, " "+c.Text))
+			}
+			vars = append(vars, mkNL("tab", "\t"))
+			if r.al.Extra {
+				vars = append(vars, mkNL("space", " "), mkNL("space-tab", " \t"))
 			}
 			return vars
 		}, false)
 	}
 	vown := func() {
 		r.slot("val-own."+kind, "", func() []variant {
-			vars := []variant{{"blank", "\n"}}
+			vars := []variant{mk("blank", "\n")}
 			for _, c := range r.al.Comments {
-				vars = append(vars, variant{c.Name, in1 + c.Text + "\n"})
+				vars = append(vars, mk(c.Name, in1+c.Text+"\n"))
 			}
 			return vars
 		}, false)
@@ -216,9 +236,24 @@ func (r *renderer) value(kind string, level int) {
 	case "esc":
 		w(`"` + EscSrc + `"`)
 	case "heredoc":
-		w("<<EOT\nx\nEOT")
+		// `<<EOT`: the body line is content (kept at column 0, the value is
+		// "x\n"); the closing marker "appears again on a line of its own",
+		// with any whitespace (spaces, horizontal tabs) around it.
+		w("<<EOT\nx\n")
+		r.hdBlank("hd-close-lead."+kind, "", level, true)
+		w("EOT")
+		r.hdBlank("hd-close-trail."+kind, "", level, false)
 	case "fheredoc":
-		w("<<-EOT\n    x\n    EOT")
+		// `<<-EOT`: body line and closing marker are indented two units below
+		// the attribute (so they follow the indentation style of the file);
+		// each of the two leads varies on its own.
+		def := r.ind(level + 2)
+		w("<<-EOT\n")
+		r.hdBodyLead("hd-body-lead."+kind, def, level)
+		w("x\n")
+		r.hdBlank("hd-close-lead."+kind, def, level, true)
+		w("EOT")
+		r.hdBlank("hd-close-trail."+kind, "", level, false)
 	case "tuple":
 		w("[")
 		vtrail()
@@ -245,6 +280,38 @@ func (r *renderer) value(kind string, level int) {
 		w(in0 + ")")
 	default:
 		panic("bodytree: unknown value kind " + kind)
+	}
+}
+
+// blanks: whitespace sequences tried around heredoc lines. All of them are
+// also tried in a CRLF file and in a tab-indented file (see ForEach).
+func (r *renderer) blanks(level int, lead bool) []variant {
+	cands := []variant{mkNL("none", ""), mkNL("space", " "), mkNL("tab", "\t"), mkNL("space-tab", " \t"), mkNL("tab-space", "\t ")}
+	if lead {
+		// at the indentation of the attribute itself / of a nested item
+		cands = append(cands, mkNL("level", r.ind(level)), mkNL("level1", r.ind(level+1)))
+	}
+	if r.al.Extra {
+		cands = append(cands, mkNL("two", "  "), mkNL("tab-tab", "\t\t"), mkNL("space-tab-space", " \t "))
+	}
+	// No filtering against def or among the candidates: which texts coincide
+	// depends on the indentation unit, and a deviation must exist under every
+	// unit. ForEach skips renderings whose source text was already seen.
+	return cands
+}
+
+// hdBlank: the whitespace before (lead) or after the closing marker of a
+// heredoc on its line. Nothing else may stand on that line.
+func (r *renderer) hdBlank(kind, def string, level int, lead bool) {
+	r.slot(kind, def, func() []variant { return r.blanks(level, lead) }, false)
+}
+
+// hdBodyLead: the indentation of the body line of a `<<-` heredoc.
+func (r *renderer) hdBodyLead(kind, def string, level int) {
+	at := r.sb.Len()
+	r.slot(kind, def, func() []variant { return r.blanks(level, true) }, false)
+	if strings.Contains(r.sb.String()[at:], "\t") {
+		r.flushTab = true
 	}
 }
 
@@ -341,6 +408,8 @@ func Deviations(t Tree, al *Alphabet) []Dev {
 	devs = append(devs,
 		Dev{Slot: slotIndent, Kind: "global.indent", Var: "none"},
 		Dev{Slot: slotIndent, Kind: "global.indent", Var: "tab"},
+		Dev{Slot: slotIndent, Kind: "global.indent", Var: "space-tab"},
+		Dev{Slot: slotIndent, Kind: "global.indent", Var: "tab-space"},
 		Dev{Slot: slotCRLF, Kind: "global.newline", Var: "crlf"},
 		Dev{Slot: slotNoFinalNL, Kind: "global.final-newline", Var: "missing"},
 		Dev{Slot: slotBOM, Kind: "global.bom", Var: "utf8"},
@@ -353,16 +422,25 @@ func Deviations(t Tree, al *Alphabet) []Dev {
 // case: dropping the final newline directly after a heredoc terminator, or
 // of an empty file).
 func Render(t Tree, devs []Dev, al *Alphabet) (string, bool) {
+	src, _, ok := render(t, devs, al)
+	return src, ok
+}
+
+// indentUnits: the indentation unit of each global.indent variant (the
+// canonical unit is two spaces).
+var indentUnits = map[string]string{"none": "", "tab": "\t", "space-tab": " \t", "tab-space": "\t "}
+
+func render(t Tree, devs []Dev, al *Alphabet) (src string, flushTab bool, ok bool) {
 	r := &renderer{unit: "  ", al: al, active: map[int]string{}}
 	crlf, nofinal, bom := false, false, false
 	for _, d := range devs {
 		switch d.Slot {
 		case slotIndent:
-			if d.Var == "tab" {
-				r.unit = "\t"
-			} else {
-				r.unit = ""
+			u, known := indentUnits[d.Var]
+			if !known {
+				panic("bodytree: unknown indentation " + d.Var)
 			}
+			r.unit = u
 		case slotCRLF:
 			crlf = true
 		case slotNoFinalNL:
@@ -377,12 +455,12 @@ func Render(t Tree, devs []Dev, al *Alphabet) (string, bool) {
 	out := r.sb.String()
 	if nofinal {
 		if !strings.HasSuffix(out, "\n") {
-			return "", false
+			return "", false, false
 		}
 		out = out[:len(out)-1]
 		lastLine := out[strings.LastIndexByte(out, '\n')+1:]
 		if strings.TrimSpace(lastLine) == "EOT" {
-			return "", false // heredocTemplate = ... Identifier Newline
+			return "", false, false // heredocTemplate = ... Identifier Newline
 		}
 	}
 	if crlf {
@@ -391,13 +469,18 @@ func Render(t Tree, devs []Dev, al *Alphabet) (string, bool) {
 	if bom {
 		out = "\xef\xbb\xbf" + out
 	}
-	return out, true
+	return out, r.flushTab, true
 }
 
 // Rendering is one concrete source text of a tree.
 type Rendering struct {
 	Src  string
 	Devs []Dev
+	// FlushTab: the body line of some `<<-` heredoc is indented with blanks
+	// that include a horizontal tab. The flush rule of hclsyntax/spec.md counts
+	// "leading spaces", so how much of such an indentation is removed from the
+	// value is not specified.
+	FlushTab bool
 }
 
 func (r Rendering) Has(slot int) bool {
@@ -443,14 +526,16 @@ func (r Rendering) Kinds() []string {
 // ForEach calls f with the canonical rendering and then with every rendering
 // that has at most k deviations (distinct source texts only). With k == 1 a
 // deviation on the last line of the file is additionally combined with the
-// missing final newline ("comment at end of file without newline"), and a
+// missing final newline ("comment at end of file without newline"); a
 // deviation that involves a line end (line comment, blank line, multi-line
-// inline comment) is additionally combined with CRLF. It stops when f returns
-// false.
+// inline comment, trailing blanks, blanks around a heredoc closing marker) is
+// additionally combined with CRLF; every indentation style is combined with
+// CRLF; and every deviation on the lines of a heredoc is combined with tab
+// indentation (LF and CRLF). It stops when f returns false.
 func ForEach(t Tree, k int, al *Alphabet, f func(Rendering) bool) {
 	seen := map[string]struct{}{}
 	try := func(devs ...Dev) bool {
-		src, ok := Render(t, devs, al)
+		src, flushTab, ok := render(t, devs, al)
 		if !ok {
 			return true
 		}
@@ -458,7 +543,7 @@ func ForEach(t Tree, k int, al *Alphabet, f func(Rendering) bool) {
 			return true
 		}
 		seen[src] = struct{}{}
-		return f(Rendering{Src: src, Devs: append([]Dev(nil), devs...)})
+		return f(Rendering{Src: src, Devs: append([]Dev(nil), devs...), FlushTab: flushTab})
 	}
 	if !try() {
 		return
@@ -491,6 +576,23 @@ func ForEach(t Tree, k int, al *Alphabet, f func(Rendering) bool) {
 		for _, d := range devs {
 			if d.Last && d.NL {
 				if !try(d, nofinal, crlf) {
+					return
+				}
+			}
+		}
+		// every indentation style also in a CRLF file; every layout of the
+		// lines of a heredoc also in a tab-indented file (LF and CRLF)
+		tab := Dev{Slot: slotIndent, Kind: "global.indent", Var: "tab"}
+		for _, d := range devs {
+			if d.Slot == slotIndent {
+				if !try(d, crlf) {
+					return
+				}
+			}
+		}
+		for _, d := range devs {
+			if strings.HasPrefix(d.Kind, "hd-") {
+				if !try(d, tab) || !try(d, tab, crlf) {
 					return
 				}
 			}
